@@ -55,3 +55,76 @@ def r7_twin_updates(ctx):
 
 
 RULES = [r1_lhs_kill, r2_enum_dispatch, r4_kernels, r5_cache, r6_vertex_namespace, r7_twin_updates]
+
+
+# ------------------------------------------------------------------ lost update on a copy
+from ..tree import walk, strip, is_call, is_field, obj, callee, src      # noqa: E402
+from ..match import local_decls, strip_move                              # noqa: E402
+
+UF_FILES = ("include/crab/domains/union_find_domain.hpp", "include/crab/domains/numerical_packing.hpp")
+
+
+def r8_lost_update(ctx):
+    ctx.rule("C03.r8", "union-find / packing: an equivalence class taken out of the class table BY VALUE and then mutated is written back "
+             "(or returned); otherwise the mutation happens on a discarded copy", floor=2)
+    n_sites = 0
+    for f in UF_FILES:
+        if not ctx.db.has_file(f):
+            continue
+        for fn in ctx.db.fns(f):
+            body = fn["body"]
+            d = local_decls(body)
+            for dd in d.values():
+                t = (dd.get("T") or "")
+                if "i" not in dd or t.rstrip().endswith("&") or t.rstrip().endswith("*") or "equivalence_class" not in (dd.get("TC") or t):
+                    continue
+                init = strip_move(dd["i"])
+                # initialised from an element of one of the value's own tables
+                from_table = any((is_call(x, name=("at", "operator[]")) and is_field(obj(x))) or
+                                 (x.get("k") == "mem" and x.get("n") == "second") for x in walk(init))
+                if not from_table:
+                    continue
+                vid = dd["id"]
+                muts = []
+                stores = []
+                for x in walk(body):
+                    if x.get("k") == "call" and callee(x):
+                        o = strip(x.get("o")) if "o" in x else None
+                        if isinstance(o, dict) and o.get("k") == "ref" and o.get("id") == vid and not callee(x).get("const"):
+                            muts.append(x)
+                        # written back / handed on: appears (moved or copied) as an argument of another call, or returned
+                        def is_var(a, depth=0):
+                            a = strip_move(a)
+                            if isinstance(a, dict) and a.get("k") == "ref" and a.get("id") == vid:
+                                return True
+                            if isinstance(a, dict) and depth < 3 and (a.get("k") in ("ctor", "ilist") or is_call(a, name=("make_pair", "move", "forward"))):
+                                return any(is_var(z, depth + 1) for z in a.get("a", []))
+                            return False
+                        for a in x.get("a", []):
+                            if is_var(a) and not (isinstance(o, dict) and o.get("id") == vid):
+                                if callee(x)["name"] not in ("operator<<",):
+                                    stores.append(x)
+                    if x.get("k") == "ret" and any(y.get("k") == "ref" and y.get("id") == vid for y in walk(x.get("v"))):
+                        stores.append(x)
+                    if x.get("k") == "asg" and any(y.get("k") == "ref" and y.get("id") == vid for y in walk(x.get("R"))):
+                        stores.append(x)
+                if not muts:
+                    continue
+                n_sites += 1
+                # order: some store after the last mutation (textual order in the body)
+                order = [x for x in walk(body) if any(x is m for m in muts) or any(x is st for st in stores)]
+                last_mut = max(i for i, x in enumerate(order) if any(x is m for m in muts))
+                stored_after = any(i > last_mut for i, x in enumerate(order) if any(x is st for st in stores))
+                if stored_after:
+                    ctx.ok("%s: copy `%s` mutated and written back" % (fn["name"], dd["n"]), fn, dd)
+                else:
+                    ctx.bad("%s::%s copies an equivalence class out of the class table (`%s %s = %s`), mutates the COPY with `%s` and never "
+                            "stores it back: the class kept in the table is unchanged (the forgotten variable keeps its constraints)" %
+                            ((fn.get("cpk") or "").split("::")[-1], fn["name"], t[:40], dd["n"], src(init)[:40], src(muts[0])[:50]),
+                            fn, muts[0], sig="lost-update:%s:%s" % (fn["name"], dd["n"]))
+    if n_sites == 0:
+        # positive witness: the rename() idiom copies, erases and re-inserts
+        ctx.fail("rule C03.r8: no mutated by-value copy of an equivalence class found (the rename idiom disappeared)")
+
+
+RULES += [r8_lost_update]
